@@ -315,6 +315,11 @@ fn judge(which: &str, c: &Case, obs: &Obs, blur: i128, route: &str, sink: &mut S
             if which == "C14" {
                 sink.add("C14:panic".into(), format!("now() panicked ({m}) for a record/readings in the meaningful range"), replay());
             }
+            if which == "C05" && expected_kind.is_none() {
+                // the harness build has overflow checks on: an arithmetic overflow in the width computation
+                // surfaces as a panic here and as a silently wrapped (wrong) half-width in a release build
+                sink.add("C05:no-interval:panic".into(), format!("now() panicked ({m}) where an interval of half-width bound + drift x age is due (age {age} ns, drift {} ppb); a release build without overflow checks returns a wrapped width instead", c.rec.drift), replay());
+            }
             None
         }
         Obs::Err { kind, errno, detail } => {
